@@ -271,6 +271,7 @@ class Sys:
 
     def check_as_array(self, op="as_array", with_size=True):
         n = self.ms.n
+        shapes = {}
         for name, attr, model in (("sparse", self.sp, self.ms), ("dense", self.de, self.md)):
             if name == "sparse" or with_size:
                 ok, arr = self.call("answers", "as_array", attr.as_array, n)
@@ -281,6 +282,7 @@ class Sys:
                                   "%s as_array(len) does not hold len x arity values" % name,
                                   shape=list(getattr(arr, "shape", [])), want=[n, self.k]):
                 raise Diverged()
+            shapes[name] = tuple(np.shape(arr))
             rows = np.asarray(arr).reshape(n, self.k)
             for i in range(n):
                 if not R.same(rows[i], model.get(i)):
@@ -289,6 +291,11 @@ class Sys:
                               index=i, got=R.show(rows[i]), want=R.show(model.get(i)))
                     raise Diverged()
             self.ctx.obs("answers", "as_array", n)
+        # the two storages give the same answer: the exported arrays have the same shape whatever the container size (one element included)
+        if len(shapes) == 2 and not self.check(shapes["sparse"] == shapes["dense"], "answers", "as_array", "sparse_and_dense_exports_differ_in_shape",
+                                               "as_array of the sparse and of the dense storage of the same attribute have different shapes",
+                                               sparse=list(shapes["sparse"]), dense=list(shapes["dense"]), container_length=n, arity=self.k):
+            raise Diverged()
 
     def check_align(self, op):
         n = self.ms.n
